@@ -502,6 +502,9 @@ def run(ctx):
                                          "every displacement of one segment by <= 3 positions inside its flight for two cut conversations")
     import translate                 # decision-logic functions re-translated from the source and proved equal to the model
     _tm, _tt = translate.wire(ctx, "C05")
+    import oncode_thms               # the property theorems stated on the regenerated definitions themselves (Props/OnCode)
+    _om, _ot = oncode_thms.wire("C05")
+    _tm, _tt = _tm + _om, _tt + _ot
     import export_seg_thms, file_corr          # whole-program form (Props/ExportSeg) about connOut / framesFrom
     ctx.prove(["TLX.Props.C05"] + _tm + export_seg_thms.MODULES)
     ctx.require_theorems(export_seg_thms.THEOREMS_C05)
